@@ -506,7 +506,7 @@ func csvField(f string, comma rune, only bool) string {
 	need := false
 	switch {
 	case f == "":
-		need = false // encoding/csv has not quoted empty fields since Go 1.4
+		need = only // a row that is a single empty field is written as "" (interp/io.go writeCSV; an empty line would be no row)
 	case f == `\.`:
 		need = true
 	default:
